@@ -200,6 +200,27 @@ def gen_fn(rng, n):
             yield Case("num_fnapply", [p, b"1", b"2"], model=False, tags=["site:fn4-apply"])
 
 
+def gen_fn0_exhaustive():
+    """sampled functions (type 0), every small shape: m = 1..3 inputs, 0..2 outputs (an empty /Range is accepted by the loader),
+    1..2 samples per dimension, /Order 1 and 3, the sample table complete or empty, input vectors of the matching length (grid
+    corners and a mixed point) and of a non-matching one, the output slice of the matching length and one longer — so that the
+    indexing code of every arm of SampledFunction::apply is reached, also with n_out = 0.  A value or an error, never a panic."""
+    for m in (1, 2, 3):
+        for k_out in (0, 1, 2):
+            for size in (1, 2):
+                for order in (1, 3):
+                    full = k_out * size ** m
+                    for dlen in sorted(set([full, 0, max(0, full - 1)])):
+                        dct = {"FunctionType": 0, "Domain": [0.0, 1.0] * m, "Range": [0.0, 1.0] * k_out, "Size": [size] * m,
+                               "BitsPerSample": 8, "Order": order}
+                        data = bytes((37 * j + 11) % 256 for j in range(dlen))
+                        p = b"p" + canon(dict(dct, Length=len(data))) + data.hex().encode() + b";"
+                        for xs in ([0] * m, [1] * m, [0, 1, 1][:m], [1, 0, 1][:m], [0] * (m - 1), [1] * (m + 1)):
+                            for n_out in (k_out, k_out + 1):
+                                yield Case("num_fnapply", [p, ",".join(map(str, xs)).encode(), d(n_out)], model=False,
+                                           tags=["site:fn0-apply", "fn0:exhaustive"])
+
+
 def gen_objstm(rng, n):
     for i in range(n):
         k = rng.choice([0, 1, 2, 3, 5])
@@ -371,7 +392,7 @@ def generate(rng, tier):
     k = 1 if tier == "quick" else 8
     gens = [gen_ps(rng, 500 * k), gen_diff(rng, 150 * k), gen_fn(rng, 100 * k), gen_objstm(rng, 250 * k), gen_widths(rng, 250 * k),
             gen_crypt(rng, 250 * k), gen_pages(rng, 80 * k), gen_tree(rng, 150 * k), gen_unpredict(rng, 200 * k), gen_fax(rng, 200 * k),
-            gen_xref(rng, 150 * k)]
+            gen_xref(rng, 150 * k), gen_fn0_exhaustive()]
     for g in gens:
         for c in g:
             yield c
